@@ -161,6 +161,17 @@ def check(run: Run, prog: Program, model: Model, tier: str) -> None:
             run.violated("OPTIONAL-EQ-HASH", "optional.__eq__/__hash__", oc.loc, f"__eq__ uses {sorted(fe)}, __hash__ uses {sorted(fh)}",
                          witness="equal optional keys hash differently: duplicate dict keys")
 
+    # ---------------------------------------------------------------- PURE-EQ: equality depends on the registries only
+    from .c17 import hidden_state
+    hidden_state(run, prog, pb, "PURE-EQ")
+    for fn_ in [eqm] + ([ov[0]] if ov and isinstance(ov[0], FuncInfo) else []):
+        for n in ast.walk(fn_.node):
+            if isinstance(n, ast.Call) and isinstance(n.func, ast.Name) and n.func.id in ("id", "hash"):
+                run.violated("PURE-EQ", f"{fn_.qualname}: {n.func.id}()", f"{fn_.module.path}:{n.lineno}",
+                             "equality consults object identity / hashes: the verdict for structurally equal operands depends on "
+                             "which objects happen to be alive", witness="ref == build(3) followed by ref == build(4) is True after the first operand is collected")
+    run.floor("PURE-EQ", 1)
+
     # ---------------------------------------------------------------- EQ-FALLBACK + KIND-CONFUSION
     _kind_confusion(run, prog, model, ov[0] if ov and isinstance(ov[0], FuncInfo) else None, eqm)
 
@@ -171,15 +182,17 @@ def _kind_confusion(run: Run, prog: Program, model: Model, eqf: Optional[FuncInf
     # (a) eq(schema, <non-schema>) goes to the validate fallback; eq(schema, schema) is structural
     st = model.schemas["IntSchema"]
 
-    def run_eq(other_mk: Any) -> List[Path]:
+    def run_eq(other_mk: Any, setprops: Any = ()) -> List[Path]:
         it = Interp(prog, model, unroll=1)
         it.accept_summary = lambda recv, v: True   # type: ignore
 
         def r(i: Interp) -> V:
-            return i.call_function(eqf, [i.make_schema(st, []), other_mk(i)], {})
+            return i.call_function(eqf, [i.make_schema(st, list(setprops)), other_mk(i)], {})
         return it.run_paths(r)
-    ps = run_eq(lambda i: Sym("v", "object", ("param", "value"), exact=True))
-    fb = all(any(e.kind == "accept" for e in p.events) for p in ps) and bool(ps)
+    ps = run_eq(lambda i: Sym("v", "object", ("param", "value"), exact=True)) + \
+        run_eq(lambda i: Sym("v", "object", ("param", "value"), exact=True), st.props)
+    fb = bool(ps) and all(any(e.kind == "accept" for e in p.events) and isinstance(p.value, Term) and p.value.op == "not"
+                          and "has_errors" in p.value.key() for p in ps if p.outcome == "return")
     if fb:
         run.holds("EQ-FALLBACK", "eq(schema, <non-schema value>)", eqf.loc, "true exactly when validate(schema, value) has no errors", nontrivial=True)
     else:
@@ -255,4 +268,16 @@ MUTANTS = [
     {"name": "neutral: loops merged over the key union", "expect": "SILENT",
      "edits": [(P, "        for key, val in self._registry.items():\n            other_val = other.get(key)\n            if val != other_val:\n                return False\n\n        for key, other_val in other._registry.items():\n            val = self.get(key)\n            if other_val != val:\n                return False\n",
                 "        for key, val in self._registry.items():\n            if val != other.get(key):\n                return False\n\n        for key, other_val in other._registry.items():\n            if other_val != self.get(key):\n                return False\n")]},
+]
+
+MUTANTS += [
+    {"name": "comparison results cached by id(other)", "rule": "PURE-EQ",
+     "edits": [(P, "        if not isinstance(other, self.__class__):\n            return False\n", "        if not isinstance(other, self.__class__):\n            return False\n        if id(other) in self._seen:\n            return self._seen[id(other)]\n"),
+               (P, "        self._registry = registry if (registry is not Nil) else {}", "        self._registry = registry if (registry is not Nil) else {}\n        self._seen: dict = {}"),
+               (P, "        return True\n", "        self._seen[id(other)] = True\n        return True\n")]},
+]
+
+MUTANTS += [
+    {"name": "eq() short-circuits on a declared constant equal to the value", "rule": "EQ-FALLBACK",
+     "edits": [("d42/validation/__init__.py", "    return not validate(schema, value=value).has_errors()", "    if getattr(schema.props, \"value\", None) == value and value is not None:\n        return True\n    return not validate(schema, value=value).has_errors()")]},
 ]
